@@ -4,7 +4,7 @@ CONSTANTS
   Nodes = {"n1"}
   Uids = {"r1", "r2"}
   Pods = {"p2"}
-  RSpecs <- MatchSpecs
+  RSpecs <- MatchSpecsQ
   Reqs <- ReqsI
   PodAttr <- PA2
   TermPhases = {"Failed"}
